@@ -4,6 +4,7 @@ import (
 	"fmt"
 	"go/constant"
 	"go/token"
+	"go/types"
 	"strings"
 
 	"golang.org/x/tools/go/ssa"
@@ -402,5 +403,112 @@ func pool2SingleRelease(p *core.Prog, rep *core.Report) {
 	}
 	if n < 3 {
 		core.Failf("vacuity guard: POOL2 expected >= 3 functions taking records from the pool, found %d", n)
+	}
+}
+
+// bt4StagedIndexed: the batch keeps its staged records in a slice (issue order, what Commit writes) and in a lookup map
+// (what Batch.Get and the hit paths of Put / Delete consult). The two must change together: a record appended to the
+// slice but not entered in the map is written at Commit yet invisible to the batch's own reads (Get serves the
+// pre-batch value of a key the batch deleted; a second Put of the key stages a duplicate); a slice reset that leaves
+// the map behind makes the next lookup index a record that is no longer there.
+func bt4StagedIndexed(p *core.Prog, rep *core.Report) {
+	R := p.R
+	rep.Rule("BT4", "staged slice and lookup map change together: in every function, an append to the batch's staged slice is paired with an update of the batch's lookup map, and a reset of the slice with a reset of the map, on every path (the partner dominates the store, or every path from the store to a return passes through it)")
+	var lookup *types.Var
+	st := R.Batch.Underlying().(*types.Struct)
+	for i := 0; i < st.NumFields(); i++ {
+		if _, ok := st.Field(i).Type().Underlying().(*types.Map); ok {
+			if lookup != nil {
+				rep.Unk("BT4", "lookup-map", "exactly one map field in Batch expected (the staged-record lookup)", "", "found several: "+lookup.Name()+", "+st.Field(i).Name())
+				return
+			}
+			lookup = st.Field(i)
+		}
+	}
+	if lookup == nil {
+		rep.Unk("BT4", "lookup-map", "a map field in Batch expected (the staged-record lookup)", "", "none found")
+		return
+	}
+	n := 0
+	for _, fn := range p.LibFuncs() {
+		// partner instructions of this function
+		var updates, resets []ssa.Instruction
+		for _, b := range fn.Blocks {
+			for _, in := range b.Instrs {
+				switch t := in.(type) {
+				case *ssa.MapUpdate:
+					if core.LastField(t.Map) == lookup {
+						updates = append(updates, in)
+					}
+				case *ssa.Store:
+					if f, _, _ := core.StoreField(in); f == lookup {
+						resets = append(resets, in)
+					}
+				}
+			}
+		}
+		for _, b := range fn.Blocks {
+			for _, in := range b.Instrs {
+				f, _, val := core.StoreField(in)
+				if f != R.BatchStaged {
+					continue
+				}
+				isAppend := false
+				if c, ok := val.(*ssa.Call); ok {
+					if bi, ok := c.Call.Value.(*ssa.Builtin); ok && bi.Name() == "append" {
+						isAppend = true
+					}
+				}
+				partners, kind, consequence := resets, "reset", "stale lookup entries index records that are no longer staged (out-of-range / wrong record on the next lookup)"
+				if isAppend {
+					partners, kind, consequence = updates, "append", "the record is written at Commit but invisible to Batch.Get and to the hit paths of Put / Delete"
+				}
+				n++
+				ok := false
+				isPartner := map[*ssa.BasicBlock]int{}
+				for _, pi := range partners {
+					if before(pi, in) {
+						ok = true
+					}
+					if idx, seen := isPartner[pi.Block()]; !seen || indexIn(pi) > idx {
+						isPartner[pi.Block()] = indexIn(pi)
+					}
+				}
+				escape := ""
+				if !ok {
+					if idx, has := isPartner[b]; has && idx > indexIn(in) {
+						ok = true
+					} else {
+						seen := map[*ssa.BasicBlock]bool{}
+						var dfs func(x *ssa.BasicBlock)
+						dfs = func(x *ssa.BasicBlock) {
+							if escape != "" {
+								return
+							}
+							if r, isRet := x.Instrs[len(x.Instrs)-1].(*ssa.Return); isRet {
+								escape = p.InstrPos(r)
+								return
+							}
+							for _, s := range x.Succs {
+								if seen[s] {
+									continue
+								}
+								seen[s] = true
+								if _, has := isPartner[s]; has {
+									continue
+								}
+								dfs(s)
+							}
+						}
+						dfs(b)
+						ok = escape == ""
+					}
+				}
+				rep.Check(ok, "BT4", fmt.Sprintf("paired-%s:%s", kind, core.FuncKey(fn)), "the staged slice and the lookup map change together", p.InstrPos(in), fmt.Sprintf("%s of the staged slice at %s reaches the return at %s without the matching change of Batch.%s: %s", kind, p.InstrPos(in), escape, lookup.Name(), consequence), true)
+			}
+		}
+	}
+	if n < 2 {
+		rep.Unk("VAC", "BT4", "expected >= 2 stores to the staged slice", "", fmt.Sprintf("found %d", n))
 	}
 }
